@@ -54,7 +54,35 @@ def gen_model(rng, P=None, force_arity=None, misuse=False):
     return names, ops, {"P": P, "N": N}
 
 
+def gen_big_model(rng, P):
+    """a valid model with MANY parameters (beyond any machine-word sized bookkeeping): functions of arity <= 10 covering all of them"""
+    names = rng.sample(range(1, 400), P)
+    N = 10
+    remaining = list(names)
+    rng.shuffle(remaining)
+    groups, tag = [], 1
+    while remaining:
+        k = min(len(remaining), rng.randint(6, 10))
+        fps = remaining[:k]
+        remaining = remaining[k:]
+        grp = [("function", list(fps), k, tag)]
+        tag += 1
+        dorder = list(fps)
+        rng.shuffle(dorder)
+        for n in dorder:
+            grp.append(("partial_deriv", n, k, tag % 100))
+            tag += 1
+        groups.append(grp)
+    extras = [[("x", [rng.randint(0, 9) for _ in range(N)])], [("init", [11 + (i % 88) for i in range(P)])]]
+    allg = groups + extras
+    rng.shuffle(allg)
+    return names, [o for g in allg for o in g], {"P": P, "N": N, "big": True}
+
+
 def gen_calls(rng, P):
+    if P > 60:
+        # one update, one evaluation, every derivative index in turn
+        return [("params",), ("set", [11 + ((7 * i) % 88) for i in range(P)]), ("eval",)] + [("deriv", k) for k in range(P)]
     calls = [("params",), ("eval",)]
     for _ in range(rng.randint(1, 3)):
         vals = rng.sample(range(11, 99), P)
@@ -90,6 +118,9 @@ def main(tier, seed, replay=None):
             progs.append((list(perm), ops, {"P": P, "N": 10}))
     for _ in range(150 if tier == "quick" else 3000):
         progs.append(gen_model(rng))
+    # many parameters: indices beyond 64 / 128 (bit masks, small fixed-size tables)
+    for P in ([66, 70] if tier == "quick" else [65, 66, 70, 96, 129, 130, 200]):
+        progs.append(gen_big_model(rng, P))
     cases, calls_l = [], []
     for i, (names, ops, info) in enumerate(progs):
         calls = gen_calls(rng, info["P"])
